@@ -9,6 +9,6 @@ CONSTANTS
   MaxOps = 1
   HasUpper = TRUE
   Known = {}
-  UpperTypes = {"none", "file", "dir", "odir", "wh", "sym"}
+  UpperTypes = {"none", "file", "dir", "odir", "wh"}
   LowerTypes = {"none", "file", "dir", "odir", "wh", "sym"}
 INVARIANTS LoadAgrees LiveIsView StatusAgrees RestartSame LowersFrozen
